@@ -379,6 +379,13 @@ func (w *weaver) expr(e ast.Expr) ast.Expr {
 					s := w.site(x)
 					return w.call("OpenFile", w.expr(x.Args[0]), w.expr(x.Args[1]), w.expr(x.Args[2]), s)
 				}
+				if name == "Chdir" && len(x.Args) == 1 {
+					// the working directory of the process is one shared location: changing it is a write, resolving
+					// a relative path (any FSW / FSR of one) a read
+					w.st.FSPoints++
+					x.Args[0] = w.call("FSChdir", w.expr(x.Args[0]), w.site(x))
+					return x
+				}
 				if (name == "CreateTemp" || name == "MkdirTemp") && len(x.Args) == 2 {
 					w.st.FSPoints++
 					s := w.site(x)
